@@ -1128,7 +1128,7 @@ func c09Bulk(c *c09Ctx, w *c09Worker) {
 	drivers := []string{"next-loop", "pairs", "tb.Next"}
 	for _, n := range []int{1, 2, 7, 8, 9, 31, 32, 33, 63, 64, 65, 100, 127, 128, 129, 300} {
 		for _, kind := range []string{"string", "fraction", "mixed"} {
-			for _, scenario := range []string{"clear-visited", "clear-every-second", "clear-all-at-first", "clear-refill-traverse", "delete-half-traverse", "clear-ahead"} {
+			for _, scenario := range []string{"clear-visited", "clear-every-second", "clear-all-at-first", "clear-refill-traverse", "delete-half-traverse", "clear-ahead", "clear-visited-probe", "clear-second-probe", "delete-half-clear-visited-probe", "nested-traversal-clear-visited"} {
 				for _, drv := range drivers {
 					mkKey := func(i int) lua.LValue {
 						switch {
@@ -1154,7 +1154,7 @@ func c09Bulk(c *c09Ctx, w *c09Worker) {
 						for i := n; i >= 1; i-- {
 							tb.RawSet(mkKey(i), lua.LNumber(i))
 						}
-					case "delete-half-traverse":
+					case "delete-half-traverse", "delete-half-clear-visited-probe":
 						for i := 1; i <= n; i += 2 {
 							tb.RawSet(mkKey(i), lua.LNil)
 							delete(present, mkKey(i))
@@ -1174,7 +1174,43 @@ func c09Bulk(c *c09Ctx, w *c09Worker) {
 						}
 						visits[k]++
 						order = append(order, k)
+						// probe: a second traversal of the same table is started while this one stands on a key
+						// (the emptiness idiom next(t) == nil, or a whole nested loop); what it returns must be
+						// a present field, and the outer traversal must go on as if nothing had happened
+						probe := func(whole bool) {
+							pk, _ := tb.Next(lua.LNil)
+							seen := 0
+							for pk != lua.LNil {
+								if !present[pk] {
+									problem = fmt.Sprintf("a fresh traversal started during the outer one returned key %v, which is not in the table", pk)
+								}
+								seen++
+								if !whole || seen > n+2 {
+									break
+								}
+								pk, _ = tb.Next(pk)
+							}
+							if pk == lua.LNil && seen != len(present) && (whole || len(present) > 0) {
+								problem = fmt.Sprintf("a fresh traversal started during the outer one saw %d fields, the table holds %d", seen, len(present))
+							}
+						}
 						switch scenario {
+						case "clear-visited-probe", "delete-half-clear-visited-probe":
+							tb.RawSet(k, lua.LNil)
+							delete(present, k)
+							probe(false)
+						case "clear-second-probe":
+							if step%2 == 0 {
+								tb.RawSet(k, lua.LNil)
+								delete(present, k)
+							}
+							probe(false)
+						case "nested-traversal-clear-visited":
+							tb.RawSet(k, lua.LNil)
+							delete(present, k)
+							if step%5 == 1 {
+								probe(true)
+							}
 						case "clear-visited":
 							tb.RawSet(k, lua.LNil)
 							delete(present, k)
